@@ -253,7 +253,10 @@ var shapes = []shapeGen{
 		b.WriteString(rep(" ", n+1) + "pass\ny = f()\n")
 		return b.String()
 	}},
-	{"comp-nest", func(n int) string { n = min(n, 3000); return "x = " + rep("[1 for a in ", n) + "[1]" + rep("]", n) + "\n" }},
+	{"comp-nest", func(n int) string {
+		n = min(n, 3000)
+		return "x = " + rep("[1 for a in ", n) + "[1]" + rep("]", n) + "\n"
+	}},
 	{"comp-clauses", func(n int) string { n = min(n, 5000); return "x = [1" + rep(" for a in [1]", n) + "]\n" }},
 	{"comp-ifs", func(n int) string { n = min(n, 8000); return "x = [1 for a in [1]" + rep(" if a", n) + "]\n" }},
 	{"big-int-literal", func(n int) string { return "x = " + rep("9", n) + "\n" }},
@@ -314,7 +317,9 @@ var shapes = []shapeGen{
 	{"deep-recursion", func(n int) string { return "def f(n):\n    return f(n + 1)\nf(0)\n" }},
 	{"deep-recursion-callback", func(n int) string { return "def f(x):\n    return sorted([1, 2], key=f)\nf(0)\n" }},
 	{"deep-data-build", func(n int) string { return "x = []\nfor i in range(100000):\n    x = [x]\ns = str(x)\nh = x == x\n" }},
-	{"deep-tuple-build", func(n int) string { return "x = ()\nfor i in range(100000):\n    x = (x,)\ns = repr(x)\nd = {}\nd[x] = 1\n" }},
+	{"deep-tuple-build", func(n int) string {
+		return "x = ()\nfor i in range(100000):\n    x = (x,)\ns = repr(x)\nd = {}\nd[x] = 1\n"
+	}},
 	{"deep-dict-build", func(n int) string { return "x = {}\nfor i in range(100000):\n    x = {1: x}\ns = json.encode(x)\n" }},
 	{"self-closure", func(n int) string { return "def outer():\n    def f():\n        return f\n    return f\ng = outer()\n" }},
 	{"mutual-closure", func(n int) string {
